@@ -7,7 +7,8 @@ LEVEL = "proof"
 RULE = ("seeded histories of 4-9 calls on one rewriter (one process, one thread): modified / not-modified / syntax-error / cancelled results, several "
         "files, files with sourceMappingURL comments (inline, external, missing) with chaining and comments on or off, repeated calls; a second rewriter "
         "with the same (and with a similar) configuration in the same process; every call's content, metrics and literal set is compared with the same "
-        "call made alone in a fresh process, and the whole history is repeated in another fresh process; non-trivial = history with at least two "
+        "call made alone in a fresh process, and the whole history is repeated in another fresh process; the histories are replayed through main.js (both "
+        "rewriter classes, a stand-in native module replaying the native results and errors); non-trivial = history with at least two "
         "accepted calls of different kinds; distinct by history")
 
 
@@ -126,6 +127,46 @@ def run(O, P):
             O.nontrivial.add(h["id"])
             if len(O.samples) < 4:
                 O.samples.append({"id": h["id"], "calls": [(c["file"], c["code"][:50]) for c in h["calls"]][:6], "kinds": sorted(seen_kinds)})
+    # the same histories through the package's wrapper (main.js, both rewriter classes, one instance each for the whole batch):
+    # a stand-in native module replays the native results -- errors included --, and every call must hand back what the same
+    # call made alone hands back, whatever was processed (or refused) before it
+    jobs = []
+    for h, r1 in zip(batch[:120], first[:120]):
+        for which in (True, False):
+            steps = []
+            for k, call in enumerate(h["calls"]):
+                nat = r1["calls"][k]
+                st = {"op": "rewrite", "file": "/pkg/" + call["file"].lstrip("/"), "code": call["code"], "cache": which}
+                if nat.get("outcome") == "ok":
+                    st["response"] = nat["result"]
+                else:
+                    st["error"] = nat.get("error") or nat.get("panic") or "error"
+                steps.append(st)
+            jobs.append({"id": "%s/%s" % (h["id"], "cache" if which else "noncache"), "steps": steps, "_h": h})
+    res = vlib.run_node("pkg_history.js", [{"id": j["id"], "steps": j["steps"]} for j in jobs]) if jobs else []
+    if res is None or len(res) != len(jobs):
+        O.break_("package wrapper driver failed", {"correspondence": "tools/pkg_history.js"})
+        res = []
+    pk = collections.Counter()
+    for j, rr in zip(jobs, res):
+        O.evaluations += 1
+        for k, (st, got) in enumerate(zip(j["steps"], rr["results"])):
+            got = got or {}
+            if "error" in st:
+                ok = "threw" in got
+                pk["refused"] += 1
+                what = "a call the native rewriter refuses does not raise through the package API"
+            else:
+                stt = (st["response"].get("metrics") or {}).get("status")
+                want = st["code"] if stt == "notmodified" else st["response"]["content"]
+                ok = got.get("content") == want and got.get("status") == stt
+                pk[stt or "?"] += 1
+                what = ("call %d of the history through the package API (%s) does not hand back what the same call hands back alone: status %r instead of %r%s"
+                        % (k, j["id"].split("/")[-1], got.get("status"), stt, "" if got.get("content") == want else ", other content"))
+            if not ok:
+                O.violation(what, {"case": dict(j["_h"], calls=j["_h"]["calls"][:k + 1]), "failing_call": k, "returned": {kk: (vv[:300] if isinstance(vv, str) else vv) for kk, vv in got.items()}})
+                break
+    O.coverage["package_level_calls"] = dict(pk)
     O.coverage["histories"] = len(batch)
     O.coverage["calls"] = len(singles)
     O.coverage["call_kinds"] = dict(kinds)
